@@ -12,7 +12,7 @@ def check_one(src: str, mode: str = "exec", variant: str = "shipped", py_version
     o = impl.parse(src, mode, variant=variant, py_version=tuple(py_version) if py_version else None)
     k = o["k"]
     if k == "tree":
-        want = "Module" if mode == "exec" else "Expression"
+        want = "Expression" if mode == "eval" else "Module"
         if o["type"] != want:
             return {"kind": "wrong-root", "type": o["type"]}
         return {"ok": "tree"}
@@ -45,6 +45,9 @@ def build_inputs(tier):
     # the witnesses of the recorded findings run first, in every run
     cases.append(("kf-witness", "x = " + "(" * 120 + "y" + ")" * 120 + "\n", "exec"))
     cases.append(("kf-witness", "s = '\ud800'\n", "exec"))
+    for s in ["", "\n", " ", "#c", "\t\n", "\\\n", "\x0c", "\ufeff", ";", "()"]:
+        for m in ("exec", "eval", "file", "bare"):
+            cases.append(("edge", s, m))
     for _ in range(1500 * N):
         cases.append(("soup", mutate.soup(r), r.choice(["exec", "exec", "eval"])))
     base = list(corpus.PY_STMTS) + list(xonshgen.XONSH_STMTS) + [s + "\n" for s in corpus.FSTRINGS] + [p[0] + "\n" for p in corpus.xonsh_pairs()]
